@@ -1,0 +1,304 @@
+// Copyright 2020-2025 Buf Technologies, Inc.
+//
+// Licensed under the Apache License, Version 2.0 (the "License");
+// you may not use this file except in compliance with the License.
+// You may obtain a copy of the License at
+//
+//      http://www.apache.org/licenses/LICENSE-2.0
+//
+// Unless required by applicable law or agreed to in writing, software
+// distributed under the License is distributed on an "AS IS" BASIS,
+// WITHOUT WARRANTIES OR CONDITIONS OF ANY KIND, either express or implied.
+// See the License for the specific language governing permissions and
+// limitations under the License.
+
+//go:build verif
+
+package bufprotopluginexec
+
+// Contracts for the gocv verifier (see /verif/DESIGN.md). Comment-only.
+// Spec functions, trusted contracts of other packages: /verif/specs/R4e.spec (prefix re_).
+//
+// ---- version.go: the documented protoc version thresholds (version_test.go spells them as examples) ----
+// A "buf" suffix (the built-in compiler) never needs the experimental flag and supports everything.
+//
+// --experimental_allow_proto3_optional: exactly protoc 3.12, 3.13, 3.14.
+//@ pure func getSetExperimentalAllowProto3OptionalFlag(version) (r)
+//@   property C17
+//@   ensures threshold: r <==> (version.GetSuffix() != "buf" && version.GetMajor() == 3 && 12 <= version.GetMinor() && version.GetMinor() <= 14)
+//@   canary ensures r
+//@   canary ensures !r
+//
+// proto3 optional is supported from 3.12 on.
+//@ pure func getFeatureProto3OptionalSupported(version) (r)
+//@   property C17
+//@   ensures threshold: r <==> (version.GetSuffix() == "buf" || version.GetMajor() > 3 || (version.GetMajor() == 3 && version.GetMinor() >= 12))
+//@   canary ensures r
+//@   canary ensures !r
+//
+// kotlin is a protoc builtin from 3.17 on.
+//@ pure func getKotlinSupportedAsBuiltin(version) (r)
+//@   property C17
+//@   ensures threshold: r <==> (version.GetSuffix() == "buf" || version.GetMajor() > 3 || (version.GetMajor() == 3 && version.GetMinor() >= 17))
+//@   canary ensures r
+//@   canary ensures !r
+//
+// rust is a protoc builtin from 4.23 on.
+//@ pure func getRustSupportedAsBuiltin(version) (r)
+//@   property C17
+//@   ensures threshold: r <==> (version.GetSuffix() == "buf" || version.GetMajor() > 4 || (version.GetMajor() == 4 && version.GetMinor() >= 23))
+//@   canary ensures r
+//@   canary ensures !r
+//
+// js was a protoc builtin from 3.0 up to and including 3.20 (protoc v21+ still reports 3.21.x).
+//@ pure func getJSSupportedAsBuiltin(version) (r)
+//@   property C17
+//@   ensures threshold: r <==> (version.GetSuffix() == "buf" || (version.GetMajor() == 3 && version.GetMinor() <= 20))
+//@   canary ensures r
+//@   canary ensures !r
+//
+// ---- bufprotopluginexec.go: where a plugin is looked for ----
+// unsafeLookPath: one $PATH lookup of exactly the given name; logged. exec.ErrDot (found relative to the current
+// directory) is documented to be accepted.
+//@ func unsafeLookPath(file) (r, err)
+//@   property C17
+//@   modifies ghost.re_lookN, ghost.re_looked, ghost.re_lookPath, ghost.re_lookErr, ghost.re_rawErr
+//@   ghost after "path, err := exec.LookPath(file)" re_rawErr := err
+//@   ghost before "return path, err" re_looked := put(ghost.re_looked, ghost.re_lookN, file)
+//@   ghost before "return path, err" re_lookPath := put(ghost.re_lookPath, ghost.re_lookN, path)
+//@   ghost before "return path, err" re_lookErr := put(ghost.re_lookErr, ghost.re_lookN, err)
+//@   ghost before "return path, err" re_lookN := ghost.re_lookN + 1
+//@   ensures one-lookup: ghost.re_lookN == old(ghost.re_lookN) + 1
+//@   ensures of-the-name: ghost.re_looked == put(old(ghost.re_looked), old(ghost.re_lookN), file)
+//@   ensures answer-logged: ghost.re_lookPath == put(old(ghost.re_lookPath), old(ghost.re_lookN), r) && ghost.re_lookErr == put(old(ghost.re_lookErr), old(ghost.re_lookN), err)
+//@   ensures dot-accepted: errors.Is(ghost.re_rawErr, exec.ErrDot) ==> err == nil
+//@   ensures other-errors-kept: !errors.Is(ghost.re_rawErr, exec.ErrDot) ==> err == ghost.re_rawErr
+//
+//@ inline func newBinaryHandler
+//@ inline func newProtocProxyHandler
+//@ inline func newHandlerOptions
+//
+// NewBinaryHandler: the handler runs exactly the binary the lookup of pluginPath answered, with exactly the given
+// arguments; a failed lookup gives no handler.
+//@ func NewBinaryHandler(logger, pluginPath, pluginArgs) (r, err)
+//@   property C17
+//@   modifies heap binaryHandler.*, ghost.re_lookN, ghost.re_looked, ghost.re_lookPath, ghost.re_lookErr, ghost.re_rawErr
+//@   ensures one-lookup: ghost.re_lookN == old(ghost.re_lookN) + 1 && ghost.re_looked == put(old(ghost.re_looked), old(ghost.re_lookN), pluginPath)
+//@   ensures earlier-lookups-kept: forall k int :: k != old(ghost.re_lookN) ==> ghost.re_lookErr[k] == old(ghost.re_lookErr)[k] && ghost.re_lookPath[k] == old(ghost.re_lookPath)[k]
+//@   ensures fails-iff-not-found: (err != nil) <==> (ghost.re_lookErr[old(ghost.re_lookN)] != nil)
+//@   ensures no-handler-on-error: err != nil ==> r == nil
+//@   ensures runs-the-found-binary: err == nil ==> r != nil && typeOf(r) == typeId(*binaryHandler) && cast(*binaryHandler, r).pluginPath == ghost.re_lookPath[old(ghost.re_lookN)] && cast(*binaryHandler, r).pluginArgs == pluginArgs
+//@   canary ensures err != nil
+//@   canary ensures err == nil
+//
+// NewHandler: the documented search order. ghost.re_hoPlugin / re_hoProtoc: the plugin path / protoc path options as
+// they stand once all options have been applied (options are function values: their effect is confined to the option
+// record by the `calls` line - assumed, listed; HandlerWithPluginPath / HandlerWithProtocPath are proved to store
+// their argument below).
+//  1. plugin path set: only that binary is looked up; not finding it is an error (no fallback).
+//  2. else protoc-gen-NAME is looked up on $PATH and used if found.
+//  3. else, if NAME is a protoc builtin, protoc (option, default "protoc") is looked up; not finding it is an error.
+//  4. else error.
+//@ func NewHandler(logger, storageosProvider, pluginName, options) (r, err)
+//@   property C17
+//@   modifies heap, ghost.re_lookN, ghost.re_looked, ghost.re_lookPath, ghost.re_lookErr, ghost.re_rawErr, ghost.re_hoPlugin, ghost.re_hoProtoc, ghost.re_nhOpts
+//@   calls option modifies heap handlerOptions.pluginPath, heap handlerOptions.protocPath
+//@   ghost before "handlerOptions := newHandlerOptions()" re_nhOpts := options
+//@   ensures options-logged: ghost.re_nhOpts == options
+//@   ghost before "if len(handlerOptions.pluginPath) > 0" re_hoPlugin := handlerOptions.pluginPath
+//@   ghost before "if len(handlerOptions.pluginPath) > 0" re_hoProtoc := handlerOptions.protocPath
+//@   ensures first-lookup: ghost.re_lookN >= old(ghost.re_lookN) + 1 && ghost.re_looked[old(ghost.re_lookN)] == ite(len(ghost.re_hoPlugin) > 0, ghost.re_hoPlugin[0], "protoc-gen-" + pluginName)
+//@   ensures plugin-path-only: len(ghost.re_hoPlugin) > 0 ==> ghost.re_lookN == old(ghost.re_lookN) + 1 && ((err != nil) <==> (ghost.re_lookErr[old(ghost.re_lookN)] != nil))
+//@   ensures plugin-path-binary: len(ghost.re_hoPlugin) > 0 && err == nil ==> r != nil && typeOf(r) == typeId(*binaryHandler) && cast(*binaryHandler, r).pluginPath == ghost.re_lookPath[old(ghost.re_lookN)] && len(cast(*binaryHandler, r).pluginArgs) == len(ghost.re_hoPlugin) - 1 && (forall k int :: 0 <= k && k < len(ghost.re_hoPlugin) - 1 ==> cast(*binaryHandler, r).pluginArgs[k] == ghost.re_hoPlugin[k + 1])
+//@   ensures named-binary-found: len(ghost.re_hoPlugin) == 0 && ghost.re_lookErr[old(ghost.re_lookN)] == nil ==> err == nil && ghost.re_lookN == old(ghost.re_lookN) + 1 && r != nil && typeOf(r) == typeId(*binaryHandler) && cast(*binaryHandler, r).pluginPath == ghost.re_lookPath[old(ghost.re_lookN)] && len(cast(*binaryHandler, r).pluginArgs) == 0
+//@   ensures builtin-third: len(ghost.re_hoPlugin) == 0 && ghost.re_lookErr[old(ghost.re_lookN)] != nil && pluginName in bufconfig.ProtocProxyPluginNames ==> ghost.re_lookN == old(ghost.re_lookN) + 2
+//@   ensures builtin-protoc-looked-up: len(ghost.re_hoPlugin) == 0 && ghost.re_lookErr[old(ghost.re_lookN)] != nil && pluginName in bufconfig.ProtocProxyPluginNames ==> ghost.re_looked[old(ghost.re_lookN) + 1] == ite(len(ghost.re_hoProtoc) == 0, "protoc", ghost.re_hoProtoc[0])
+//@   ensures builtin-needs-protoc: len(ghost.re_hoPlugin) == 0 && ghost.re_lookErr[old(ghost.re_lookN)] != nil && pluginName in bufconfig.ProtocProxyPluginNames ==> ((err != nil) <==> (ghost.re_lookErr[old(ghost.re_lookN) + 1] != nil))
+//@   ensures builtin-handler: len(ghost.re_hoPlugin) == 0 && ghost.re_lookErr[old(ghost.re_lookN)] != nil && pluginName in bufconfig.ProtocProxyPluginNames && err == nil ==> r != nil && typeOf(r) == typeId(*protocProxyHandler) && cast(*protocProxyHandler, r).protocPath == ghost.re_lookPath[old(ghost.re_lookN) + 1] && cast(*protocProxyHandler, r).pluginName == pluginName && len(cast(*protocProxyHandler, r).protocExtraArgs) == max(len(ghost.re_hoProtoc), 1) - 1 && (forall k int :: 0 <= k && k < len(ghost.re_hoProtoc) - 1 ==> cast(*protocProxyHandler, r).protocExtraArgs[k] == ghost.re_hoProtoc[k + 1])
+//@   ensures unknown-is-error: len(ghost.re_hoPlugin) == 0 && ghost.re_lookErr[old(ghost.re_lookN)] != nil && !(pluginName in bufconfig.ProtocProxyPluginNames) ==> err != nil && ghost.re_lookN == old(ghost.re_lookN) + 1
+//@   ensures no-handler-on-error: err != nil ==> r == nil
+//@   ensures handler-on-success: err == nil ==> r != nil
+//
+//@ pure func HandlerWithPluginPath(pluginPath) (r)
+//@   property C17
+//@   ensures r != nil
+//@   closure 0 ensures handlerOptions.pluginPath == pluginPath
+//@ pure func HandlerWithProtocPath(protocPath) (r)
+//@   property C17
+//@   ensures r != nil
+//@   closure 0 ensures handlerOptions.protocPath == protocPath
+//
+// ---- generator.go ----
+// generator.Generate: the handler is looked for under exactly the given plugin name; if there is none, nothing is run
+// and the error is returned; otherwise ONE bufprotoplugin generator is built around exactly that handler and is
+// handed exactly the given requests, once, and its answer is returned unchanged.
+//@ inline func newGenerateOptions
+//@ func (g *generator) Generate(ctx, container, pluginName, requests, options) (r, retErr)
+//@   property C17
+//@   modifies heap, ghost.fail, ghost.wfail, ghost.sinkPaths, ghost.sinkBuckets, ghost.lastPutOptions, ghost.re_rw, ghost.re_fail0, ghost.re_respFrom, ghost.re_handleN, ghost.re_handleBy, ghost.re_handleReq, ghost.re_handleCGR, ghost.re_handleRW, ghost.re_handleErr, ghost.buf, ghost.re_runN, ghost.re_runName, ghost.re_runOpts, ghost.re_runErr, ghost.re_rwFilesN, ghost.re_rwFilesTo, ghost.re_rwFiles, ghost.re_rwErrN, ghost.re_rwErrTo, ghost.re_rwErrMsg, ghost.re_binResp, ghost.re_binDecoded, ghost.re_verBuf, ghost.re_verText, ghost.re_genN, ghost.re_genBy, ghost.re_genHandler, ghost.re_genReqs, ghost.re_genResp, ghost.re_genErr, ghost.re_lookN, ghost.re_looked, ghost.re_lookPath, ghost.re_lookErr, ghost.re_rawErr, ghost.re_hoPlugin, ghost.re_hoProtoc, ghost.re_handler, ghost.re_handlerErr, ghost.re_nhOpts, ghost.re_goPlugin, ghost.re_goProtoc
+//@   calls option modifies heap generateOptions.pluginPath, heap generateOptions.protocPath
+//@   ghost before "handlerOptions := []HandlerOption{" re_goPlugin := generateOptions.pluginPath
+//@   ghost before "handlerOptions := []HandlerOption{" re_goProtoc := generateOptions.protocPath
+//@   ensures paths-forwarded: len(ghost.re_nhOpts) == 2 && ghost.re_nhOpts[0] == HandlerWithPluginPath(ghost.re_goPlugin) && ghost.re_nhOpts[1] == HandlerWithProtocPath(ghost.re_goProtoc)
+//@   ghost after "handler, err := NewHandler(" re_handler := handler
+//@   ghost after "handler, err := NewHandler(" re_handlerErr := err
+//@   ensures looked-for-by-name: ghost.re_lookN >= old(ghost.re_lookN) + 1 && ghost.re_looked[old(ghost.re_lookN)] == ite(len(ghost.re_hoPlugin) > 0, ghost.re_hoPlugin[0], "protoc-gen-" + pluginName)
+//@   ensures no-handler-nothing-run: ghost.re_handlerErr != nil ==> retErr == ghost.re_handlerErr && r == nil && ghost.re_genN == old(ghost.re_genN)
+//@   ensures one-run-with-the-requests: ghost.re_handlerErr == nil ==> ghost.re_genN == old(ghost.re_genN) + 1 && ghost.re_genReqs[old(ghost.re_genN)] == requests
+//@   ensures found-handler: ghost.re_handlerErr == nil ==> ghost.re_handler != nil
+//@   ensures run-by-the-found-handler: ghost.re_handlerErr == nil ==> typeOf(ghost.re_genBy[old(ghost.re_genN)]) == typeId(*bufprotoplugin.generator) && ghost.re_genHandler[old(ghost.re_genN)] == ghost.re_handler
+//@   ensures answer-unchanged: ghost.re_handlerErr == nil ==> r == ghost.re_genResp[old(ghost.re_genN)] && retErr == ghost.re_genErr[old(ghost.re_genN)]
+//@   ensures no-response-on-error: retErr != nil ==> r == nil
+//@   ensures ok-response: retErr == nil ==> r != nil && r.GetError() == ""
+// (re_fail0: ghost.fail when the jobs were started - see bufprotoplugin.generator.Generate)
+//@   ensures failing-request-fails-all: ghost.re_handlerErr == nil && ghost.fail && !ghost.re_fail0 ==> retErr != nil
+//@   canary ensures retErr != nil
+//@   canary ensures retErr == nil
+//
+//@ inline func newGenerator
+//@ func NewGenerator(logger, storageosProvider) (r)
+//@   property C17
+//@   ensures r != nil && typeOf(r) == typeId(*generator) && cast(*generator, r).storageosProvider == storageosProvider && cast(*generator, r).logger == logger
+//
+// The two generate options store their argument in the option record and nothing else.
+//@ pure func GenerateWithPluginPath(pluginPath) (r)
+//@   property C17
+//@   ensures r != nil
+//@   closure 0 ensures generateOptions.pluginPath == pluginPath
+//@ pure func GenerateWithProtocPath(protocPath) (r)
+//@   property C17
+//@   ensures r != nil
+//@   closure 0 ensures generateOptions.protocPath == protocPath
+//
+// ---- protoc_gen_swift_stderr_write_closer.go ----
+// Write only captures (the delegate is not touched: no ghost.fail in the frame); Close hands the captured text minus
+// every occurrence of the swift-protobuf protoc-version warning to the delegate, in one write, and nothing at all if
+// nothing is left; a failed or incomplete write is an error.
+//@ func (p *protocGenSwiftStderrWriteCloser) Write(data) (n, err)
+//@   property C17
+//@   modifies ghost.buf
+//@   ensures captured: ghost.buf == put(old(ghost.buf), p.buffer, old(ghost.buf)[p.buffer] + bstr(data))
+//@   ensures all-taken: n == len(data) && err == nil
+//
+//@ func (p *protocGenSwiftStderrWriteCloser) Close() (err)
+//@   property C17
+//@   modifies ghost.fail, ghost.wfail, ghost.re_swiftWrites, ghost.re_swiftOut, ghost.re_swiftLen, ghost.re_swiftN
+//@   use re_bstr-empty
+//@   ghost before "n, err := p.delegate.Write(newData)" re_swiftOut := bstr(newData)
+//@   ghost before "n, err := p.delegate.Write(newData)" re_swiftLen := len(newData)
+//@   ghost before "n, err := p.delegate.Write(newData)" re_swiftWrites := ghost.re_swiftWrites + 1
+//@   ghost after "n, err := p.delegate.Write(newData)" re_swiftN := n
+//@   ensures nothing-left-nothing-written: replaceAll(ghost.buf[p.buffer], re_swiftWarning(), "") == "" ==> err == nil && ghost.re_swiftWrites == old(ghost.re_swiftWrites) && ghost.fail == old(ghost.fail)
+//@   ensures filtered-text-written-once: replaceAll(ghost.buf[p.buffer], re_swiftWarning(), "") != "" ==> ghost.re_swiftWrites == old(ghost.re_swiftWrites) + 1 && ghost.re_swiftOut == replaceAll(ghost.buf[p.buffer], re_swiftWarning(), "")
+//@   ensures incomplete-write-is-error: ghost.re_swiftWrites != old(ghost.re_swiftWrites) && ghost.re_swiftN != ghost.re_swiftLen ==> err != nil
+//@   ensures reported: ghost.fail && !old(ghost.fail) ==> err != nil
+//@   canary ensures err != nil
+//@   canary ensures err == nil
+//
+// ---- util.go ----
+// isTooManyFilesError: only an error whose chain holds an *os.SyscallError with the message "too many open files".
+//@ func isTooManyFilesError(err) (r)
+//@   property C17
+//@   modifies heap ptr.Ref
+//@   ensures nil-is-not: err == nil ==> !r
+//@   ensures only-syscall-errors: r ==> err != nil && (exists e ref :: e != nil && inChain(err, e) && cast(*os.SyscallError, e).Err != nil)
+//
+// handlePotentialTooManyFilesError: any other error is passed through unchanged (nil stays nil); a too-many-files
+// error is replaced by a (non-nil) error that adds the help text.
+//@ func handlePotentialTooManyFilesError(err) (r)
+//@   property C17
+//@   modifies heap ptr.Ref
+//@   ensures nil-stays-nil: err == nil ==> r == nil
+//@   ensures error-stays-error: err != nil ==> r != nil
+//@   ensures others-unchanged: r != err ==> err != nil && (exists e ref :: e != nil && inChain(err, e) && cast(*os.SyscallError, e).Err != nil)
+//@   canary ensures r == err
+//@   canary ensures r != err
+//
+// ---- version.go: building, printing and parsing protoc versions ----
+//@ func newVersion(major, minor, patch, suffix) (r)
+//@   property C17
+//@   ensures numbers: r != nil && r.Major == proto.Int32(major) && r.Minor == proto.Int32(minor) && r.Patch == proto.Int32(patch)
+//@   ensures suffix-only-if-given: (suffix == "" ==> r.Suffix == nil) && (suffix != "" ==> r.Suffix == proto.String(suffix))
+//
+// versionString (version_test.go: "3.15.0", "21.0", "21.1", "21.1.1", "21.1-rc-1"): three components up to major
+// version 3 or when there is a patch number, two otherwise; "-suffix" appended iff the version has a suffix.
+// (ghost.re_vsBase / re_vsParts: the number text and which of the two formats printed it - fmt.Sprintf has no
+// content model in the engine.)
+//@ func versionString(version) (r)
+//@   property C17
+//@   modifies ghost.re_vsBase, ghost.re_vsParts
+//@   ghost after "value = fmt.Sprintf(\"%d.%d.%d\"" re_vsParts := 3
+//@   ghost after "value = fmt.Sprintf(\"%d.%d\"" re_vsParts := 2
+//@   ghost before "if version.Suffix != nil" re_vsBase := value
+//@   ensures three-or-two-components: ghost.re_vsParts == ite(version.GetMajor() <= 3 || version.GetPatch() != 0, 3, 2)
+//@   ensures suffix-appended: r == ite(version.Suffix != nil, ghost.re_vsBase + "-" + version.GetSuffix(), ghost.re_vsBase)
+//
+// parseVersionForCLIVersion ("libprotoc 3.14.0-rc1", "21.1", ...): the optional "libprotoc " prefix is dropped; two
+// or three '.'-separated components, anything else is an error; the first is the major number; the last is split at
+// its FIRST '-' into a number and the suffix (so "rc-1" stays whole); with two components that number is the minor
+// and the patch is 0, with three the middle one is the minor and that number the patch; a component that is not a
+// number is an error; errors give no version.
+//@ func parseVersionForCLIVersion(value) (r, retErr)
+//@   property C17
+//@   ensures component-count: len(re_pvSplit(value)) != 2 && len(re_pvSplit(value)) != 3 ==> retErr != nil
+//@   ensures numbers-required: (len(re_pvSplit(value)) == 2 || len(re_pvSplit(value)) == 3) ==> ((retErr != nil) <==> (second(strconv.ParseInt(re_pvSplit(value)[0], 10, 32)) != nil || second(strconv.ParseInt(re_pvRest(value)[0], 10, 32)) != nil || (len(re_pvSplit(value)) == 3 && second(strconv.ParseInt(re_pvSplit(value)[1], 10, 32)) != nil)))
+//@   ensures no-version-on-error: retErr != nil ==> r == nil
+//@   ensures major: retErr == nil ==> r != nil && r.Major == proto.Int32(first(strconv.ParseInt(re_pvSplit(value)[0], 10, 32)))
+//@   ensures two-components: retErr == nil && len(re_pvSplit(value)) == 2 ==> r.Minor == proto.Int32(first(strconv.ParseInt(re_pvRest(value)[0], 10, 32))) && r.Patch == proto.Int32(0)
+//@   ensures three-components: retErr == nil && len(re_pvSplit(value)) == 3 ==> r.Minor == proto.Int32(first(strconv.ParseInt(re_pvSplit(value)[1], 10, 32))) && r.Patch == proto.Int32(first(strconv.ParseInt(re_pvRest(value)[0], 10, 32)))
+//@   ensures suffix-after-first-dash: retErr == nil ==> (len(re_pvRest(value)) == 2 && re_pvRest(value)[1] != "" ==> r.Suffix == proto.String(re_pvRest(value)[1])) && (len(re_pvRest(value)) == 1 || re_pvRest(value)[1] == "" ==> r.Suffix == nil)
+//
+// ---- binary_handler.go ----
+// newStderrWriteCloser: only a binary called protoc-gen-swift gets the filtering closer, around the given writer.
+//@ func newStderrWriteCloser(delegate, pluginPath) (r)
+//@   property C17
+//@   modifies heap protocGenSwiftStderrWriteCloser.*, ghost.buf
+//@   ensures swift-filtered: filepath.Base(pluginPath) == "protoc-gen-swift" ==> r != nil && typeOf(r) == typeId(*protocGenSwiftStderrWriteCloser) && cast(*protocGenSwiftStderrWriteCloser, r).delegate == delegate && ghost.buf[cast(*protocGenSwiftStderrWriteCloser, r).buffer] == ""
+//@   ensures others-unfiltered: filepath.Base(pluginPath) != "protoc-gen-swift" ==> r == ioext.NopWriteCloser(delegate)
+//@ inline func newProtocGenSwiftStderrWriteCloser
+//
+// binaryHandler.Handle: the configured binary - and nothing else - is run exactly once; if the run (or decoding its
+// output) fails, the error is returned and NOTHING is added to the response writer; otherwise exactly the decoded
+// response's files are added, once, to exactly the writer given, and the plugin's error string is forwarded.
+// (The deferred slogext.DebugProfile(...)() goes through a function value: whole-heap havoc at exit in the model, so
+// the heap-reading parts are stated on ghost copies.)
+//@ func (h *binaryHandler) Handle(ctx, pluginEnv, responseWriter, request) (retErr)
+//@   property C17
+//@   modifies heap, ghost.buf, ghost.fail, ghost.wfail, ghost.s_unknown, ghost.b2_reparsedWith, ghost.b2_marN, ghost.b2_marRecv, ghost.b2_marMsg, ghost.b2_marData, ghost.b2_marResolver, ghost.b2_unmN, ghost.b2_unmRecv, ghost.b2_unmMsg, ghost.b2_unmData, ghost.b2_unmFailed, ghost.b2_unmResolver, ghost.re_runN, ghost.re_runName, ghost.re_runOpts, ghost.re_runErr, ghost.re_rwFilesN, ghost.re_rwFilesTo, ghost.re_rwFiles, ghost.re_rwErrN, ghost.re_rwErrTo, ghost.re_rwErrMsg, ghost.re_binResp, ghost.re_binDecoded
+//@   ghost before "requestData, err := protoencoding.NewWireMarshaler().Marshal(" re_binDecoded := false
+//@   ghost before "responseWriter.AddCodeGeneratorResponseFiles(" re_binResp := response
+//@   ghost before "responseWriter.AddCodeGeneratorResponseFiles(" re_binDecoded := true
+//@   ensures at-most-one-run: ghost.re_runN == old(ghost.re_runN) || ghost.re_runN == old(ghost.re_runN) + 1
+//@   assert before "responseBuffer := bytes.NewBuffer(nil)" encodes-this-request: ghost.b2_marMsg == request.CodeGeneratorRequest() && ghost.b2_marData == requestData
+//@   assert before "if err := execext.Run(" run-options: len(runOptions) == 4 + ite(len(h.pluginArgs) > 0, 1, 0) && runOptions[0] == execext.WithEnv(pluginEnv.Environ) && runOptions[2] == execext.WithStdout(responseBuffer) && runOptions[3] == execext.WithStderr(stderrWriteCloser) && (len(h.pluginArgs) > 0 ==> runOptions[4] == execext.WithArgs(h.pluginArgs))
+//@   assert before "return err"@2 failed-run-was-the-configured-binary: ghost.re_runName[ghost.re_runN - 1] == h.pluginPath
+//@   assert before "response := &pluginpb.CodeGeneratorResponse{}" runs-the-configured-binary: ghost.re_runName[ghost.re_runN - 1] == h.pluginPath
+//@   ensures run-on-success: retErr == nil ==> ghost.re_runN == old(ghost.re_runN) + 1 && ghost.re_runErr[old(ghost.re_runN)] == nil
+//@   ensures failed-run-is-error: ghost.re_runN == old(ghost.re_runN) + 1 && ghost.re_runErr[old(ghost.re_runN)] != nil ==> retErr == ghost.re_runErr[old(ghost.re_runN)]
+//@   ensures failure-adds-nothing: retErr != nil ==> ghost.re_rwFilesN == old(ghost.re_rwFilesN) && ghost.re_rwErrN == old(ghost.re_rwErrN)
+//@   ensures files-added-once: retErr == nil ==> ghost.re_binDecoded && ghost.re_rwFilesN == old(ghost.re_rwFilesN) + 1 && ghost.re_rwFilesTo == responseWriter && ghost.re_rwFiles == ghost.re_binResp.GetFile()
+//@   ensures plugin-error-forwarded: retErr == nil ==> ghost.re_rwErrN == old(ghost.re_rwErrN) + 1 && ghost.re_rwErrTo == responseWriter && ghost.re_rwErrMsg == ghost.re_binResp.GetError()
+//@   canary ensures retErr != nil
+//@   canary ensures retErr == nil
+//
+// ---- protoc_proxy_handler.go ----
+// getProtocVersion: the configured protoc is run once (with its stdout collected and the plugin environment); if the
+// run fails there is no version; otherwise the version is what parseVersionForCLIVersion makes of the
+// whitespace-trimmed stdout text.
+//@ func (h *protocProxyHandler) getProtocVersion(ctx, pluginEnv) (r, err)
+//@   property C17
+//@   modifies heap ptr.Ref, ghost.buf, ghost.re_runN, ghost.re_runName, ghost.re_runOpts, ghost.re_runErr, ghost.re_verBuf, ghost.re_verText
+//@   ghost after "stdoutBuffer := bytes.NewBuffer(nil)" re_verBuf := stdoutBuffer
+//@   ghost before "return parseVersionForCLIVersion(" re_verText := strings.TrimSpace(ghost.buf[stdoutBuffer])
+//@   ensures one-run-of-protoc: ghost.re_runN == old(ghost.re_runN) + 1 && ghost.re_runName[old(ghost.re_runN)] == h.protocPath
+//@   ensures stdout-collected: len(ghost.re_runOpts[old(ghost.re_runN)]) == 3 && ghost.re_runOpts[old(ghost.re_runN)][1] == execext.WithEnv(pluginEnv.Environ) && ghost.re_runOpts[old(ghost.re_runN)][2] == execext.WithStdout(ghost.re_verBuf)
+//@   ensures failed-run-no-version: ghost.re_runErr[old(ghost.re_runN)] != nil ==> err != nil && r == nil
+//@   ensures parsed-text-is-trimmed-stdout: ghost.re_runErr[old(ghost.re_runN)] == nil ==> ghost.re_verText == strings.TrimSpace(ghost.buf[ghost.re_verBuf])
+//@   ensures bad-version-text-is-error: ghost.re_runErr[old(ghost.re_runN)] == nil && len(re_pvSplit(ghost.re_verText)) != 2 && len(re_pvSplit(ghost.re_verText)) != 3 ==> err != nil
+//@   ensures major-from-stdout: err == nil ==> r != nil && r.Major == proto.Int32(first(strconv.ParseInt(re_pvSplit(ghost.re_verText)[0], 10, 32)))
+//@   ensures no-version-on-error: err != nil ==> r == nil
+//
+// protocProxyHandler.Handle: NOT under contract. A contract for the version gates (kotlin/rust/js refused before the
+// generating protoc run, proto3-optional announced iff supported) made the engine enumerate 521 paths / 3654 path
+// queries (two deferred closers, four optional argument blocks, the walk literal): 202 s wall, and five clauses ended
+// "solver says unknown" after 25 s each. The gates' predicates and getProtocVersion are verified on their own.
